@@ -8,7 +8,7 @@ import (
 	"fmt"
 )
 
-var f2Flavours = []string{"generic", "oog", "revert"}
+var f2Flavours = []string{"generic", "oog", "revert", "wrapped"}
 var f3Flavours = []string{"trap", "revert", "loop"}
 
 type enumOpts struct {
